@@ -93,7 +93,156 @@ def cases(tier):
                         items.append((prog, pos, fname))
         for i in range(0, len(items), size):
             out.append({"name": "%s-ro/%d" % (base, i), "base": base, "ro": True, "items": items[i:i + size]})
+    return out + after_cases(tier)
+
+
+# ---- failures AFTER a backward pass: gradients exist, the views' graphs are cleared and their bases linger --------------------------------
+AFTER_FAILING = [
+    ("setitem-shape", "{s}[...] = BAD7"), ("setitem-bad-index", "{s}[10] = c1"), ("iop-shape", "{s} *= BAD7"),
+    ("out-wrong-shape-tensor", "mg.add({s}, c1, out=BAD7M)"), ("out-where-shape", "mg.multiply({s}, c1, out={s}, where=BADMASK)"),
+    ("shape-assign", "{s}.shape = (4, 4)"), ("bad-reshape", "{s}.reshape(4, 4)"), ("binary-shape", "{s} + BAD7"), ("bad-index", "{s}[10]"),
+    # a view whose result is refused only after the forward pass (integer result forced non-constant), taken from a view whose graph was cleared
+    ("int-view-forced-variable", "mg.reshape(ITV, (2, 1), constant=False)"),
+    ("int-view-forced-variable-getitem", "ITV[::-1].astype(int, constant=False) if False else mg.transpose(ITV, constant=False)"),
+]
+
+
+def after_cases(tier):
+    out = []
+    for base in ("flat6", "mat23"):
+        items = []
+        for h in (1, 2):
+            for p in vp.programs(base, h, quick=True, require_inplace=False):
+                if any(vp.is_inplace(l) for l in p):
+                    continue
+                names = ["t"] + [l.split(" = ")[0] for l in p]
+                # the last tensor of the program is on the path of the first backward pass, or only the base is
+                for consumer in ("L = (%s * q[0]).sum()" % names[-1], "L = (t * t * q[1]).sum()"):
+                    for si in range(len(names)):
+                        for fname, _ in AFTER_FAILING:
+                            if fname.startswith("int-view") and si:
+                                continue
+                            items.append((list(p) + [consumer], si, fname))
+        if tier == "quick":
+            items = items[::2]
+        for i in range(0, len(items), 60):
+            out.append({"name": "%s-after/%d" % (base, i), "base": base, "after": True, "items": items[i:i + 60]})
     return out
+
+
+def _after_snapshot(T, mg, names):
+    snap = {}
+    for n in names:
+        t = T[n]
+        b = [m for m in names if T[m] is t.base]
+        g = t.grad
+        snap[n] = dict(uids=tuple(getattr(x, "uid", x) for x in terms_of(t.data)) if t.data.dtype == object else tuple(t.data.reshape(-1).tolist()),
+                       shape=t.shape, constant=t.constant, base=b[0] if b else (None if t.base is None else "<unnamed>"),
+                       has_creator=t.creator is not None, n_ops=len(t._ops),
+                       grad=None if g is None else (tuple(getattr(x, "uid", x) for x in terms_of(g)) if g.dtype == object else tuple(np.asarray(g).reshape(-1).tolist())),
+                       grad_shares=tuple(bool(g is not None and T[m].grad is not None and np.shares_memory(g, T[m].grad)) for m in names),
+                       shares=tuple(bool(np.shares_memory(t.data, T[m].data)) for m in names))
+    return snap
+
+
+def run_after(mg, base, prog, si, fname, res):
+    engine = eng_mod.Engine(skip_ties=True)
+    engine.reset_fn = lib.reset_state
+    shape = vp.BASES[base]
+    ftpl = dict(AFTER_FAILING)[fname]
+
+    def execute(with_failure):
+        S = vp.Setup(shape, mg)
+        T = S.env_mg()
+        T["BAD7"] = np.ones(7)
+        T["BAD7M"] = mg.Tensor(np.ones(7))
+        T["BADMASK"] = np.ones(7, dtype=bool)
+        T["IT"] = mg.Tensor(np.array([1, 2, 3]))
+        for ln in prog:
+            vp.run_line(ln, T)
+        T["L"].backward()
+        T["ITV"] = T["IT"][:2]
+        T["ITV"].backward()
+        names = sorted(vp.live_tensors(T, mg)) + ["IT", "ITV"]
+        raised = None
+        if with_failure:
+            tnames = ["t"] + [l.split(" = ")[0] for l in prog[:-1]]
+            s_ = tnames[si]
+            try:
+                vp.run_line(ftpl.format(s=s_, t=s_), T)
+                raised = False
+            except Exception as e:  # the statement is expected to fail
+                raised = type(e).__name__
+        snap = _after_snapshot(T, mg, names)
+        # a second pass over the base: what the program finally produces
+        L2 = (T["t"] * T["q"][2]).sum()
+        L2.backward()
+        final = _after_snapshot(T, mg, names)
+        return dict(raised=raised, snap=snap, final=final)
+
+    def body():
+        a = execute(True)
+        lib.reset_state()
+        b = execute(False)
+        return a, b
+
+    for p in engine.explore(body, max_paths=10, max_seconds=60):
+        res["paths"] += 1
+        if p.exc is not None:
+            return "harness", "%s: %s" % (type(p.exc).__name__, p.exc)
+        a, b = p.out
+        if not a["raised"]:
+            res["not_failing"] = res.get("not_failing", 0) + 1
+            return None
+        for key in ("snap", "final"):
+            if a[key] != b[key]:
+                d0 = [n for n in a[key] if a[key][n] != b[key].get(n)][0]
+                fields = [f for f in a[key][d0] if a[key][d0][f] != b[key][d0][f]]
+                return "state", "%s the failure, tensor %s differs in %s" % ("right after" if key == "snap" else "after a further backward pass following", d0, fields)
+        res["unsat"] += 1  # (structural identity of all value and gradient terms: nothing left for the solver)
+    return None
+
+
+def after_replay_source(base, prog, si, fname):
+    shape = vp.BASES[base]
+    return '''import sys
+import numpy as np
+import mygrad as mg
+PROG = %r; SI = %d; FTPL = %r
+TN = ("t", "v", "w", "u", "a", "b", "IT", "ITV")
+def snap(T):
+    live = [n for n in TN if n in T and isinstance(T[n], mg.Tensor)]
+    s = {}
+    for n in live:
+        t = T[n]; b = [m for m in live if T[m] is t.base]
+        s[n] = (t.data.tolist(), t.constant, b[0] if b else (None if t.base is None else "?"), t.creator is not None, len(t._ops),
+                None if t.grad is None else t.grad.tolist(), tuple(bool(np.shares_memory(t.data, T[m].data)) for m in live))
+    return s
+def run(fail):
+    rng = np.random.RandomState(1)
+    T = {"mg": mg, "np": np, "t": mg.Tensor(rng.rand(*%r) + 0.5), "y0": mg.Tensor(1.25), "yv": mg.Tensor(rng.rand(%d) + 0.5), "y2": mg.Tensor(rng.rand(2) + 0.5),
+         "k": np.array(0.75), "c1": np.array(2.5), "c2": np.array(1.5), "q": [np.array(1.5), np.array(2.5), np.array(3.5)],
+         "BAD7": np.ones(7), "BAD7M": mg.Tensor(np.ones(7)), "BADMASK": np.ones(7, dtype=bool), "IT": mg.Tensor(np.array([1, 2, 3]))}
+    for ln in PROG: exec(ln, T)
+    T["L"].backward()
+    T["ITV"] = T["IT"][:2]; T["ITV"].backward()
+    raised = []
+    if fail:
+        s = (["t"] + [l.split(" = ")[0] for l in PROG[:-1]])[SI]
+        try: exec(FTPL.format(s=s, t=s), T)
+        except Exception as e: raised.append(type(e).__name__)
+    s1 = snap(T)
+    (T["t"] * T["q"][2]).sum().backward()
+    return raised, s1, snap(T)
+ra, a1, a2 = run(True)
+rb, b1, b2 = run(False)
+bad = []
+if ra:
+    if a1 != b1: bad.append(("state right after the failure", [(n, a1[n], b1.get(n)) for n in a1 if a1[n] != b1.get(n)][:2]))
+    if a2 != b2: bad.append(("state after a further backward pass", [n for n in a2 if a2[n] != b2.get(n)]))
+print("raised:", ra); print(bad)
+print('REPRODUCED' if bad else 'NOT-REPRODUCED'); sys.exit(1 if bad else 0)
+''' % (list(prog), si, dict(AFTER_FAILING)[fname], shape, shape[-1])
 
 
 def live_names(lines, upto):
@@ -283,6 +432,32 @@ def run_case(spec, tier):
     mg = common._WORKER["mg"]
     res = common.new_result()
     res["programs"] = 0
+    if spec.get("after"):
+        for k, (prog, si, fname) in enumerate(spec["items"]):
+            res["programs"] += 1
+            try:
+                r = run_after(mg, spec["base"], prog, si, fname, res)
+            except eng_mod.Budget as e:
+                r = ("unknown", str(e))
+            if r is None:
+                continue
+            kind, msg = r
+            desc = "program `%s`; backward(); then the failing statement `%s` on tensor #%d" % ("; ".join(prog), dict(AFTER_FAILING)[fname], si)
+            if kind in ("unknown", "harness"):
+                res["status"] = common.INCONCLUSIVE
+                res["notes"].append("%s: %s" % (desc, msg))
+                continue
+            path = common.write_replay(PROP, gradcase._safe("%s_%d" % (spec["name"], k)), after_replay_source(spec["base"], prog, si, fname))
+            ok, out = common.run_replay(path)
+            if ok:
+                res["status"] = common.VIOLATION
+                res["violations"].append({"signature": "after:%s:%s" % (fname, msg[:40]), "replay": path, "summary": "%s: %s" % (desc, msg)})
+            else:
+                res["status"] = common.INCONCLUSIVE
+                res["notes"].append("did not reproduce: %s: %s :: %s" % (desc, msg, (out or "")[-300:]))
+        prog, si, fname = spec["items"][0]
+        res["sample"] = {"program": prog, "then": "backward()", "failing_statement": dict(AFTER_FAILING)[fname], "target": si}
+        return res
     for k, (prog, pos, fname) in enumerate(spec["items"]):
         res["programs"] += 1
         try:
